@@ -106,6 +106,10 @@ def make_storage(kind, path):
         return str(path)
     if kind == 'pathobj':
         return Path(path)
+    if kind == 'relstr':        # relative to the working directory at the moment the Lab is created (README style)
+        return os.path.relpath(str(path))
+    if kind == 'relpath':
+        return Path(os.path.relpath(str(path)))
     if kind == 'fsspec-local':
         return LocalFsspecStorage(str(path))
     if kind == 'fsspec-memory':
